@@ -90,6 +90,34 @@ func C18(r *core.Report) {
 		}
 		return true
 	})
+	// the launched literal may only forward to the closure (or function) that does the work: group.Go(func() error { return runJob(job) })
+	for depth := 0; worker != nil && depth < 2; depth++ {
+		if worker.Body == nil || len(worker.Body.List) != 1 {
+			break
+		}
+		rs, ok := worker.Body.List[0].(*ast.ReturnStmt)
+		if !ok || len(rs.Results) != 1 {
+			break
+		}
+		c, ok := core.Unparen(rs.Results[0]).(*ast.CallExpr)
+		if !ok {
+			break
+		}
+		var next *core.Func
+		if o := core.ObjOf(info, c.Fun); o != nil {
+			if fo, isFn := o.(*types.Func); isFn {
+				next = p.ByObj[fo.Origin()]
+			} else if d := singleDef(f, o); d != nil {
+				if wl, isLit := core.Unparen(d).(*ast.FuncLit); isLit {
+					next = p.ByLit[wl]
+				}
+			}
+		}
+		if next == nil || next.Body == nil {
+			break
+		}
+		worker = next
+	}
 	if worker == nil || launched == nil {
 		r.Undecided("C18.R1", f.Key+"#launch-loop", posP(r, f.Pos()), "loop launching one worker per job not found")
 		return
